@@ -110,6 +110,7 @@ type LogOpts struct {
 	TTLLabel   bool // a third of the streams carry the reserved label __ttl_days__ (stripped by the writer, sets the row TTL)
 	Huge       bool // every stream is more than 1 MiB: the parser hands the body over in one portion per stream
 	LabelPool  []string
+	Pad        int  // every line is padded by this many bytes
 	Unordered  bool // half of the streams push their entries out of time order (legal: the store orders by timestamp)
 }
 
@@ -195,6 +196,9 @@ func NewLogCase(r *rand.Rand, o LogOpts) LogCase {
 				}
 				if o.Big && s == 0 || o.Huge {
 					en.Line += strings.Repeat("p", 400+r.Intn(400))
+				}
+				if o.Pad > 0 {
+					en.Line += strings.Repeat("g", o.Pad)
 				}
 			}
 			if kind == 1 || kind == 2 {
